@@ -23,6 +23,8 @@ def run():
                   key="execute:move:C18")]
     e1.run_harnesses(rep, "C18", src, specs, jobs=2, timeout=1500 if tier() == "quick" else 3600,
                      replayer=e1.fs_replayer("faults", {"fs_move": "move"}))
+    from obligations import C05
+    C05.wrappers(rep)
     from obligations import C18_e2
     from common import Inconclusive, Obligation
     try:
